@@ -112,6 +112,13 @@ pub fn check_op(op: &DiffOp) -> Result<u64, String> {
         })
         .map_err(|p| format!("{:?}: pulling from both ends: panic: {}", op, p))?;
         r.map_err(|e| format!("{:?} over old={:?} new={:?}: {}", op, old, new, e))?;
+        let r = subject(|| {
+            crate::clone_modes!(|| "iter_changes".to_string(), || op.iter_changes(&old[..], &new[..]), |c: similar::Change<u32>| flat(&c)).and_then(|_| {
+                crate::clone_modes!(|| "iter_slices".to_string(), || op.iter_slices(&old[..], &new[..]), |(t, s): (ChangeTag, &[u32])| (t, s.as_ptr() as usize, s.len()))
+            })
+        })
+        .map_err(|p| format!("{:?}: cloning the iterator: panic: {}", op, p))?;
+        r.map_err(|e| format!("{:?} over old={:?} new={:?}: {}", op, old, new, e))?;
     }
     // value reads from the proper sequence also through Vec (Index<usize>) lookups
     let got2: Vec<_> = subject(|| op.iter_changes(&old, &new).map(|c| flat(&c)).collect::<Vec<_>>())
